@@ -1,4 +1,6 @@
 import FsnVerif.Model.Inotify
+import FsnVerif.Model.Diff
+import FsnVerif.Proofs.DiffLemmas
 /-!
 # Line-protocol driver (core-only, compiled): runs the executable model on the op lines the
 Go harness produced and prints one canonical result line per op.
@@ -73,6 +75,11 @@ def kv (args : List String) (k : String) : String :=
   | some a => (a.drop (k.length + 1)).toString
   | none => "-"
 
+/-- "abca" ↦ lines ["a\n","b\n","c\n","a\n"]; "-" ↦ no lines -/
+def tokLines (s : String) : List Diff.Line := if s == "-" then [] else s.toList.map fun c => [c, '\n']
+
+def opStr (o : Diff.OpCode) : String := s!"{o.tag}{o.i1},{o.i2},{o.j1},{o.j2}"
+
 structure DState where
   lib : Lib := {}
   eventer : Lib := {}     -- detached ring for `newevent`
@@ -134,6 +141,20 @@ def step (st : DState) (line : String) : DState × String :=
     let (q, r) := recursivePath (en == "1") (unhex p)
     (st, s!"{hex q} {if r then 1 else 0}")
   | "scenario" :: _ => (st, "ok")
+  | ["dblocks", a, b] =>
+    let ms := Diff.matchingBlocks (tokLines a) (tokLines b)
+    (st, ";".intercalate (ms.map fun m => s!"{m.a},{m.b},{m.size}"))
+  | ["dopcodes", a, b] =>
+    (st, ";".intercalate ((Diff.getOpCodes (tokLines a) (tokLines b)).map opStr))
+  | ["dgroups", a, b] =>
+    (st, "|".intercalate ((Diff.groupOpCodes 3 (Diff.getOpCodes (tokLines a) (tokLines b))).map fun g => ";".intercalate (g.map opStr)))
+  | ["dvalid", a, b] =>
+    -- the proved-sufficient validity check (`C20.edit_script_correct`) on this pair's opcodes
+    (st, if Diff.validOps (tokLines a) (tokLines b) (Diff.getOpCodes (tokLines a) (tokLines b)) then "1" else "0")
+  | ["ddiff", a, b] =>
+    let ta := (String.fromUTF8! (ByteArray.mk ((unhex a).map (·.toUInt8)).toArray)).toList
+    let tb := (String.fromUTF8! (ByteArray.mk ((unhex b).map (·.toUInt8)).toArray)).toList
+    (st, hex ((chars (Diff.diff ta tb)).toUTF8.toList.map (·.toNat)))
   | ["branches"] => (st, "B " ++ ";".intercalate (st.branches.map fun (k, n) => s!"{k}={n}"))
   | _ => (st, "bad-op")
 
